@@ -39,3 +39,49 @@ pub(crate) fn ncomp(p: &Path) -> usize {
     }
     n
 }
+
+// ---------------------------------------------------------------- Path::is_prefix_of (C06 / C08 / C14: --isolate roots)
+fn cs(c: u8) -> CString {
+    unsafe { CString::from_vec_unchecked(vec![c]) }
+}
+
+/// path of n (1..=3) one-byte components
+fn mkpath(n: usize, comps: [u8; 3]) -> Path {
+    let mut p = mk1(comps[0]);
+    if n > 1 {
+        p = Arc::new(p).push(cs(comps[1]));
+    }
+    if n > 2 {
+        p = Arc::new(p).push(cs(comps[2]));
+    }
+    p
+}
+
+#[cfg(kani)]
+#[kani::proof]
+#[kani::unwind(6)]
+fn prefix_of_components() {
+    let na: usize = kani::any();
+    let nb: usize = kani::any();
+    kani::assume(na >= 1 && na <= 3 && nb >= 1 && nb <= 3);
+    let ca: [u8; 3] = kani::any();
+    let cb: [u8; 3] = kani::any();
+    for i in 0..3 {
+        kani::assume(ca[i] == b'a' || ca[i] == b'b');
+        kani::assume(cb[i] == b'a' || cb[i] == b'b');
+    }
+    let a = mkpath(na, ca);
+    let b = mkpath(nb, cb);
+    let got = a.is_prefix_of(&b);
+    let mut want = na <= nb;
+    for i in 0..3 {
+        if i < na && i < nb && ca[i] != cb[i] {
+            want = false;
+        }
+    }
+    assert!(got == want, "VP-C06/C08/C14: is_prefix_of(a, b) iff every component of a equals the component of b at the same position");
+    kani::cover!(got && na < nb, "VPW: proper prefix reachable");
+    kani::cover!(!got && na <= nb, "VPW: mismatch reachable");
+    std::mem::forget(a);
+    std::mem::forget(b);
+}
